@@ -9,7 +9,7 @@ run() { # $1 = extra option, $2 = key to send
   sleep 0.8
   [ -n "$2" ] && { tmux -L $S send-keys "$2"; sleep 0.6; }
   tmux -L $S capture-pane -p | head -1
-  tmux -L $S kill-server
+  tmux -L $S kill-server; sleep 0.4
 }
 BIN=$1
 a=$(run "" " ")
